@@ -747,6 +747,50 @@ class KWay:
         return self
 
 
+def capacity_argument(cyfunc):
+    """Ranking-function argument for the k-way merge's output write `OUT[count] = minimum` (the one access the linear
+    domain of engine L cannot bound, because it is relational in the CONTENTS of the cursor array):
+
+        Phi = sum over arrays a of (limit[a] - cursor[a])
+
+    (1) layout [decided]: cursors / limits are the exclusive / inclusive prefix sums of the lengths of the arrays whose
+        concatenation is the value buffer, so initially Phi = len(values), and cursor[a] <= limit[a];
+    (2) advance table [decided]: a cursor moves only when it is below its limit, by exactly one: Phi >= 0 is kept;
+    (3) scan + exit tables [decided]: when the round goes on, the marker names an array that is not exhausted and whose
+        head IS the minimum, so that array's cursor moves in this round (advance table, row E=lt, C=eq; or variant B's
+        unconditional `cursor[marker] += 1`): Phi decreases by at least one per round;
+    (4) emit table [decided]: count grows by at most one per round, starts at 0.
+    Hence count + Phi <= len(values) before every round; at the write Phi >= 1 (the selected array is not exhausted), so
+    count <= len(values) - 1; and (5) the output buffer is numpy.empty(len(values)) [checked here].
+    -> (True, text) when every ingredient is decided and proved on the current source, else (False, why)."""
+    from . import linabs
+    try:
+        k = KWay(cyfunc)
+        k.analyse()
+        k.prelude()
+    except Undecided as e:
+        return False, "k-way schema not recognised: %s" % e
+    bad = [o for o in k.obl if o[0] != "PROVED"]
+    if bad:
+        return False, "k-way obligation not proved: [%s] %s" % (bad[0][1], bad[0][3])
+    need = {"reset", "scan", "exit", "emit", "advance", "count", "layout", "range"}
+    have = {o[1] for o in k.obl}
+    if need - have:
+        return False, "k-way obligations missing: %s" % sorted(need - have)
+    try:
+        a = linabs.Analyzer(cyfunc).run()
+    except Exception as e:  # noqa
+        return False, "prelude not analysable: %s" % e
+    out_py = k.views.get(k.roles["OUT"])
+    f = a.pyfacts.get(out_py) or {}
+    cap = repr(f.get("len")) if f.get("len") is not None else None
+    want = "+1*len_%s" % k.roles["V"]
+    if cap is None or cap.replace(" ", "") not in (want, "len_%s" % k.roles["V"], "1*len_%s" % k.roles["V"]):
+        return False, "capacity of the output buffer is %s, not len(%s)" % (cap, k.roles["V"])
+    return True, ("ranking function Phi = sum(limit[a] - cursor[a]): Phi = len(%s) initially (layout), every round that emits moves the selected, non-exhausted array on by one (scan / exit / advance tables), "
+                  "so count + Phi <= len(%s) and Phi >= 1 at the write; the output buffer has len(%s) elements" % (k.roles["V"], k.roles["V"], k.roles["V"]))
+
+
 def _lits(c):
     if c[0] == "lit":
         yield c
